@@ -8,8 +8,9 @@ import collections
 from .cfg import CFG, EXC_LABELS, Node, node_exprs, _walk_shallow
 
 
-def reach(g: CFG, srcs, avoid=frozenset(), skip_labels=frozenset(), include_srcs=False) -> set[int]:
-    """Nodes reachable from ``srcs`` by >=1 edge without entering a node in ``avoid``."""
+def reach(g: CFG, srcs, avoid=frozenset(), skip_labels=frozenset(), include_srcs=False, edge_ok=None) -> set[int]:
+    """Nodes reachable from ``srcs`` by >=1 edge without entering a node in ``avoid``.
+    ``edge_ok(a, b, label)`` may veto individual edges."""
     seen: set[int] = set()
     work = list(srcs)
     if include_srcs:
@@ -19,28 +20,32 @@ def reach(g: CFG, srcs, avoid=frozenset(), skip_labels=frozenset(), include_srcs
         for b, l in g.succ[x]:
             if l in skip_labels or b in avoid or b in seen:
                 continue
+            if edge_ok is not None and not edge_ok(x, b, l):
+                continue
             seen.add(b)
             work.append(b)
     return seen
 
 
-def path(g: CFG, srcs, dst: int, avoid=frozenset(), skip_labels=frozenset()) -> list[int] | None:
-    """Shortest path (as node ids) from any of ``srcs`` to ``dst``."""
+def path(g: CFG, srcs, dst: int, avoid=frozenset(), skip_labels=frozenset(), edge_ok=None) -> list[int] | None:
+    """Shortest path (as node ids) from any of ``srcs`` to ``dst`` (at least one edge unless dst in srcs)."""
+    srcs = list(srcs)
     prev: dict[int, int | None] = {s: None for s in srcs}
     q = collections.deque(srcs)
-    while q:
+    found = dst in prev
+    while q and not found:
         x = q.popleft()
-        if x == dst and prev[x] is not None or (x == dst and x in srcs and False):
-            break
         for b, l in g.succ[x]:
             if l in skip_labels or b in avoid or b in prev:
                 continue
+            if edge_ok is not None and not edge_ok(x, b, l):
+                continue
             prev[b] = x
             if b == dst:
-                q.clear()
+                found = True
                 break
             q.append(b)
-    if dst not in prev:
+    if not found:
         return None
     out = []
     cur: int | None = dst
@@ -63,12 +68,13 @@ def lines(g: CFG, p: list[int] | None, limit: int = 12) -> list[int]:
     return ls
 
 
-def must_pass(g: CFG, targets, through, start=None, skip_labels=frozenset()):
+def must_pass(g: CFG, targets, through, start=None, skip_labels=frozenset(), edge_ok=None):
     """MUST-PRECEDE: every path start->target passes a node in ``through``.
     Returns the list of targets reachable while avoiding ``through`` (empty = holds)."""
     start = [g.entry] if start is None else list(start)
     through = set(through)
-    r = reach(g, start, avoid=through, skip_labels=skip_labels, include_srcs=True)
+    r = reach(g, [s for s in start if s not in through], avoid=through, skip_labels=skip_labels,
+              include_srcs=True, edge_ok=edge_ok)
     return [t for t in targets if t in r and t not in through]
 
 
